@@ -1721,6 +1721,24 @@ fn gen_c15(seed: u64, tier: Tier) -> Scenario {
         sc.config.sinc_len = 0;
         sc.config.interp %= 2;
     }
+    // the cross-check variant costs tens of scalar kernel evaluations per point: keep one call of a wild
+    // configuration (many channels x extreme ratio x long filter) affordable, a call is not interruptible
+    for _ in 0..24 {
+        let c = call_cost(&sc.config, sc.config.max_rel).max(call_cost(&sc.config, 1.0 / sc.config.max_rel));
+        if c <= 3.0e8 {
+            break;
+        }
+        if sc.config.channels > 2 {
+            sc.config.channels = (sc.config.channels / 2).max(2);
+            if let Some(m) = &mut sc.config.mask {
+                m.truncate(sc.config.channels);
+            }
+        } else if sc.config.chunk > 8 {
+            sc.config.chunk /= 2;
+        } else {
+            break;
+        }
+    }
     sc.signal = match rng.below(5) {
         0 => Signal::Noise { seed: rng.next() },
         1 => Signal::Impulses { seed: rng.next(), period: rng.usize_in(2, 40) as u32, floor: 0.0 },
